@@ -86,6 +86,19 @@ func generate(dir string, p *synth.Program) (files map[string]string, nfuncs int
 	opts := &imports.Options{Comments: true, TabIndent: true, TabWidth: 8}
 	for name, text := range map[string]string{"verif_rand_gen.go": randSrc, "verif_unions_gen.go": unionSrc} {
 		path := filepath.Join(dir, p.Name, name)
+		// the generators list the analysed package among the imports of a file
+		// that is itself in that package and rely on goimports to drop it; when
+		// another imported package has the same name, goimports may drop the
+		// wrong one: the self-import is removed first (it can never compile)
+		self := fmt.Sprintf("%q", pkgs[0].PkgPath)
+		var kept []string
+		for _, line := range strings.Split(text, "\n") {
+			if strings.TrimSpace(line) == self {
+				continue
+			}
+			kept = append(kept, line)
+		}
+		text = strings.Join(kept, "\n")
 		fixed, ierr := imports.Process(path, []byte(text), opts)
 		if ierr != nil {
 			// syntactically invalid output: keep the raw text so that the
